@@ -3,11 +3,11 @@
 
   op "graph.order":
     {"op": "graph.order", "root": id,
-     "tys": [{"named": b, "stdlib": b, "leaf": b, "unw": id, "ucls": b, "kids": [[var|null, id], …]}, …]}
+     "tys": [{"named": b, "qualified": b, "stdlib": b, "leaf": b, "unw": id, "ucls": b, "kids": [[var|null, id], …]}, …]}
   answers
     {"wf": bool,                       -- Graph.wf (the hypothesis of the C09 theorems)
      "fuel": n, "steps": n,            -- fuel given to the loop (Graph.fuelBound when wf), number of pops
-     "nodes": [[ty, unw, var|null, cyclic, isRef], …]   -- the model's static_order
+     "nodes": [[ty, unw, var|null, cyclic, isRef, qual], …]   -- the model's static_order
         | "cycle": true                -- graphlib would raise CycleError
         | "outOfFuel": true,           -- the loop did not finish
      "topo": bool,                     -- Graph.checkTopo of that sequence
@@ -38,6 +38,7 @@ def kidOfJson (j : Json) : Except String (Option Str × Nat) :=
 
 def infoOfJson (j : Json) : Except String TyInfo := do
   let named ← jBool j "named"
+  let qualified ← jBool j "qualified"
   let stdlib ← jBool j "stdlib"
   let leaf ← jBool j "leaf"
   let ucls ← jBool j "ucls"
@@ -45,7 +46,7 @@ def infoOfJson (j : Json) : Except String TyInfo := do
   let kids ← match j.getObjVal? "kids" with
     | .ok (.arr a) => a.toList.mapM kidOfJson
     | _ => .error "kids"
-  pure { named := named, stdlib := stdlib, leaf := leaf, unwrapped := unw, ucls := ucls, children := kids }
+  pure { named := named, qualified := qualified, stdlib := stdlib, leaf := leaf, unwrapped := unw, ucls := ucls, children := kids }
 
 def graphOfJson (j : Json) : Except String TyGraph :=
   match j.getObjVal? "tys" with
@@ -54,7 +55,7 @@ def graphOfJson (j : Json) : Except String TyGraph :=
 
 def nodeToJson (n : Node) : Json :=
   .arr #[jN n.ty, jN n.unwrapped, (match n.var with | some v => .str (U v) | none => .null),
-         .bool n.cyclic, .bool n.isRef]
+         .bool n.cyclic, .bool n.isRef, .bool n.qual]
 
 def addToJson (a : Node × List Node) : Json :=
   .arr #[nodeToJson a.1, .arr (a.2.map nodeToJson).toArray]
